@@ -18,7 +18,7 @@ ASSUMPTIONS = ["the responder double (dissononce HandshakeState, initiator=False
                "consonance's random.randint(float, float) is shimmed for CPython 3.12 (third-party incompatibility)",
                "thread interleavings are sampled (yield injection at statement starts + repetition), never exhausted",
                "a hang is decided by a stable blocked state (all handshake workers parked in an untimed wait with every stimulus delivered); a plain timeout is inconclusive"]
-REQUIRED = ["real_big_cases", "real_big_ok", "real_big:socket", "real_big:asyncore", "handshakes", "variant:XX", "variant:IK", "variant:XXfallback", "transport_reached", "frames_c2s", "frames_s2c",
+REQUIRED = ["logins_started_by_auth_layer", "real_big_cases", "real_big_ok", "real_big:socket", "real_big:asyncore", "handshakes", "variant:XX", "variant:IK", "variant:XXfallback", "transport_reached", "frames_c2s", "frames_s2c",
             "history:retry-after-cutoff", "history:corrupt-reply", "failure_reported", "key_persisted", "yields_injected",
             "glued_frames_cases", "completion_race_ok", "completion_race_released_mid_delivery", "completion_race_sweeps"]
 TIMEOUT = {"quick": 300, "thorough": 3600}
@@ -126,7 +126,10 @@ class Case(object):
         prof = tstack.make_profile(name, phone=phone, server_static=stored, edge_routing_info=(gen.blob(r, r.randint(1, 30)) if d["edge"] else None),
                                    pushname=d["pushname"], create_dir=d["profile_dir"])
         cfg = prof.config
-        T = tstack.Transport(prof)
+        # (in a third of the cases the library's authentication layer starts the logins, on the 'connected' announcement)
+        T = tstack.Transport(prof, with_auth=bool(d.get("auth_layer")))
+        if d.get("auth_layer"):
+            acc.count("logins_started_by_auth_layer")
         acc.count("handshakes")
         acc.count("variant:" + variant)
         acc.count("history:" + history)
@@ -569,7 +572,7 @@ def make_desc(r, variant=None, history=None, style=None):
     return {"variant": variant, "history": history, "style": style, "edge": r.random() < 0.5, "passive": r.random() < 0.3,
             "pushname": r.choice([None, "Verif", "Jörg 😀", ""]) , "profile_dir": r.random() < 0.6,
             "timing": r.choice(["immediate", "jitter", "parked"]), "yseed": r.randrange(1 << 30), "yp": r.choice([0, 0.02, 0.1, 0.3]),
-            "glue": r.choice([0, 1, 3]), "traffic": r.choice([0, 4, 12])}
+            "glue": r.choice([0, 1, 3]), "traffic": r.choice([0, 4, 12]), "auth_layer": (r.random() < 0.34)}
 
 
 def shards(tier, seed, nworkers):
